@@ -147,11 +147,14 @@ def run(rep, repo, tier):
         mod = witness(wit, repo)
         rep.units.append('witness/%s -> %s' % (wit, label))
         tag = 'R-SVEC' if 'portable' not in wit else 'R-SVEC-TWIN'
-        run_class(rep, tag, mod, 'igris::static_vector<int, 4', SV_INT, sv_table(4), FnSpec(), min_methods=20)
+        # members that exist today; a member outside this list that other members call is a helper split off by a refactoring
+        today = ('back', 'begin', 'c_str', 'clear', 'data', 'emplace_back', 'end', 'erase', 'front', 'operator+=', 'operator=',
+                 'operator[]', 'push_back', 'resize', 'room', 'size', 'static_string', 'static_vector', '~static_vector')
+        run_class(rep, tag, mod, 'igris::static_vector<int, 4', SV_INT, sv_table(4), FnSpec(), min_methods=20, today=today)
         run_class(rep, tag, mod, 'igris::static_vector<VTr, 4', SV_INT, sv_table(SZ_VTR), FnSpec(),
-                  externals=VTR_EXT, min_methods=20)
+                  externals=VTR_EXT, min_methods=20, today=today)
         run_class(rep, 'R-SSTR' if 'portable' not in wit else 'R-SSTR-TWIN', mod, 'igris::static_string<4', SS,
-                  ss_table(), FnSpec(), min_methods=6)
+                  ss_table(), FnSpec(), min_methods=6, today=today)
     rep.floor('R-SVEC:bounds', 20)
     rep.floor('R-SVEC:invariant', 60)
     rep.floor('R-SVEC-TWIN:invariant', 50)
